@@ -1,5 +1,5 @@
 -- REGENERATED on every run by vlib/checks/c07.py from /repo's working tree. Do not edit.
 namespace OllamaVerif.Generated.C07
 /-- end index of `_ = c.cache.Remove(slot.Id, 0, ·)` in the failure path of ShiftCacheSlot -/
-def resetEnd : Int := -1
+def resetEnd : Int := 2147483647
 end OllamaVerif.Generated.C07
